@@ -79,7 +79,7 @@ PROPS = {
         extra={"obs_fields": {"solver": ["res", "store"]}}),
     "C07": solver_prop("Props/Properties_C07.v", "other",
         "repeat-run comparison in one process and across fresh processes, integer and string package names; the Coq model is a function of the provider answers",
-        "A Gallina function is deterministic by construction, so the content is that the Rust code is such a function. Every case is run twice in-process (trace and result compared) and the whole case stream is produced a second time by a fresh process with a different environment and compared byte for byte; the model must reproduce every trace from the recorded answers alone. Coq (1 theorem): the model's result depends only on the consumed prefix of the answers.",
+        "A Gallina function is deterministic by construction, so the content is that the Rust code is such a function. Every case is run twice in-process (trace and result compared) and the whole case stream is produced a second time by a fresh process with a different environment and compared byte for byte; the model must reproduce every trace from the recorded answers alone. Coq (3 theorems): the result depends only on the consumed prefix of the answers, and not on the fuel of the model (two runs that do not run out of fuel agree).",
         extra={"cross_process": True}),
     "C12": solver_prop("Props/Properties_C12.v", "proof",
         "Coq proof: structural protocol scanner over the consumed trace + queue and non-emptiness invariants of the solver model; protocol checker on every recorded callback trace of the implementation",
